@@ -3,7 +3,7 @@
 """Wrapper for SQLite3 functionality.
 
 The module holds four parts.
-`prefix_clause()` builds a LIKE predicate that matches a column against a literal prefix.
+`prefix_clause()` builds a GLOB predicate that matches a column against a literal prefix.
 `connect()` collects the connection settings that every StepUp database is opened with.
 `DBSession` serializes all access to one such connection,
 with a lock and explicit transactions.
@@ -48,12 +48,12 @@ SQLArgs = Sequence[Any] | Mapping[str, Any]
 
 
 #
-# LIKE pattern helpers
+# GLOB pattern helpers
 #
 
 
 def prefix_clause(column: str, prefix: str) -> tuple[str, str]:
-    """Build a LIKE predicate and its argument for matching a column against a prefix.
+    """Build a GLOB predicate and its argument for matching a column against a prefix.
 
     Parameters
     ----------
@@ -62,7 +62,7 @@ def prefix_clause(column: str, prefix: str) -> tuple[str, str]:
         This must be a literal from the calling code, never user input.
     prefix
         The literal prefix to match.
-        Characters with a special meaning in LIKE patterns are escaped.
+        Characters with a special meaning in GLOB patterns are escaped.
 
     Returns
     -------
@@ -73,11 +73,15 @@ def prefix_clause(column: str, prefix: str) -> tuple[str, str]:
 
     Notes
     -----
-    SQLite only honors the escape character when the query carries an `ESCAPE` clause,
+    GLOB is used instead of LIKE because LIKE ignores the case of ASCII letters:
+    `LIKE 'data/%'` also selects `Data/x.txt`, which is a different path.
+    GLOB compares case-sensitively and has no escape character:
+    a special character stands for itself inside a bracket expression,
     so the predicate and its argument are built together and must be used together.
     """
-    escaped = prefix.replace("\\", "\\\\").replace("%", "\\%").replace("_", "\\_")
-    return f"{column} LIKE ? ESCAPE '\\'", f"{escaped}%"
+    # The bracket must be escaped first, because the other two escapes introduce brackets.
+    escaped = prefix.replace("[", "[[]").replace("*", "[*]").replace("?", "[?]")
+    return f"{column} GLOB ?", f"{escaped}*"
 
 
 #
